@@ -19,7 +19,7 @@ from concurrent.futures import ThreadPoolExecutor
 
 from .. import core, tlc, traceval
 
-INVARIANTS = ["ConstructedInRunningLoop", "ExactlyOnce", "AllStartedBeforeStop", "SigintGraceful", "ErrorsExitNonZero", "ExitZeroOnlyAfterSigint"]
+INVARIANTS = ["ConstructedInRunningLoop", "ExactlyOnce", "AllStartedBeforeStop", "SigintGraceful", "ErrorsExitNonZero", "ExitZeroOnlyAfterSigint", "RunsUntilStopped"]
 NAMES = INVARIANTS + ["NeverIdle"]
 SVC = {"trio": "DCtrlTrio", "asyncio": "DCtrlAsyncio", "threading": "DCtrlThread"}
 
@@ -34,11 +34,12 @@ def mc_module(name, thorough):
              '        badelem |-> IF mid = "none" THEN "pool" ELSE "mid",\n'
              '        cancellable |-> (IF hf \\in {"trio", "asyncio"} THEN {"head"} ELSE {}) \\cup (IF mid = "svc" THEN {"mid"} ELSE {})]')
     L.append(
-        'MCInit == \\E k \\in {"yaml", "python", "badext"}, e \\in {"none", "syntax", "dangling", "nopipeline", "ctor", "unknowntag", "pyraises"},\n'
+        'MCInit == \\E k \\in {"yaml", "python", "badext"}, e \\in {"none", "syntax", "dangling", "nopipeline", "ctor", "unknowntag", "pyraises", "emptypipeline", "scalarpipeline"},\n'
         '            hf \\in Flavs \\cup {"none"}, mid \\in {"none", "plain", "svc"}, fl \\in {"-", "head", "mid"}, sg \\in BOOLEAN :\n'
         '    /\\ (k = "badext" => e = "none" /\\ fl = "-")\n'
         '    /\\ (k = "python" => e \\in {"none", "syntax", "pyraises", "ctor"})\n'
         '    /\\ (k = "yaml" => e # "pyraises")\n'
+        '    /\\ (e \\in {"emptypipeline", "scalarpipeline"} => k = "yaml" /\\ hf = "none" /\\ mid = "none")\n'
         '    /\\ (fl = "head" => hf # "none") /\\ (fl = "mid" => mid = "svc")\n'
         '    /\\ (fl # "-" => e = "none" /\\ ~sg)\n'
         '    /\\ (e # "none" \\/ k = "badext" => ~sg)\n'
@@ -84,7 +85,11 @@ def render(case, d, seed):
             lines += ["logging:", "  version: 1", "  formatters:", "    f:", "      format: '%(levelname)s %(name)s %(message)s'", "  handlers:", "    h:", "      class: logging.FileHandler", "      formatter: f", "      filename: %s" % loglog, "  root:", "    level: INFO", "    handlers: [h]"]
         if err == "dangling":
             lines += ["strangesection:", "  a: 1"]
-        if err != "nopipeline":
+        if err == "emptypipeline":
+            lines.append(rnd.choice(["pipeline: []", "pipeline: {}"]))
+        elif err == "scalarpipeline":
+            lines.append(rnd.choice(["pipeline: 3", "pipeline: 2.5", "pipeline: true"]))
+        elif err != "nopipeline":
             lines.append("pipeline:")
             for i, e in enumerate(elems):
                 c = cls(e)
@@ -106,6 +111,9 @@ def render(case, d, seed):
         ext = ".yaml" if kind == "yaml" else rnd.choice([".json", ".txt", ".cfg", ""])
     else:
         lines = ["from vp.fx_daemon import *"]
+        if rnd.random() < 0.6:
+            # a configuration module may refer to itself while it is being executed
+            lines = ["from __future__ import annotations", "import sys, dataclasses", "from vp.fx_daemon import *", "", "@dataclasses.dataclass", "class Settings:", "    rate: int = 1", "    names: list[str] = dataclasses.field(default_factory=list)", "", "this_module = sys.modules[__name__]", "settings = Settings()"]
         if err == "pyraises":
             lines.append("raise LookupError('configuration module refuses to load')")
         parts = []
@@ -215,6 +223,8 @@ def judge(ctx, traces, verdicts):
         for name in sorted({n for _, n in v.pv if n in NAMES}):
             c = tr["cfg"]
             fp = {"invariant": name, "kind": c["kind"], "err": c["err"], "fails": c["fails"] != "-", "sigint": bool(c["sigint"])}
+            if c["err"] == "emptypipeline":
+                fp["config"] = tr["config_text"].strip().splitlines()[-1]
             ctx.add_violation(name, fp, "configuration\n%s-> %s violates %s (log: %s)" % (tr["config_text"], json.dumps(tr["events"][-8:]), name, tr["log_tail"][-300:].replace("\n", " | ")), case, detail={"events": tr["events"]})
         if v.nc is not None and not v.pv:
             ctx.add_drift("daemon run for\n%s gave %s - not a behaviour of Daemon.tla" % (tr["config_text"], json.dumps(tr["events"][-8:])), case)
@@ -235,7 +245,7 @@ def run(ctx):
             c["cancellable"] = sorted(c["cancellable"])
             cases.append(c)
     ctx.extra["cases_emitted"] = len(cases)
-    budget = len(cases) * 3 if thorough else 72
+    budget = len(cases) * 3 if thorough else len(cases)
     picked = cases if len(cases) <= budget else rnd.sample(cases, budget)
     if thorough:
         picked = cases * 3
